@@ -237,7 +237,7 @@ class Runaway(RuntimeError):
     """raised by the recording qr wrapper when the implementation keeps iterating far beyond max_iterations"""
 
 
-MAX_QR_CALLS = 200
+MAX_QR_CALLS = 120
 
 
 def build_inputs(case):
@@ -345,6 +345,10 @@ def run_impl(case):
             else:
                 cls = "OtherError"
             out = {"ok": False, "exn": cls, "pyclass": type(ex).__name__, "msg": str(ex)[:200]}
+            if isinstance(ex, Runaway):
+                # keep the case file small: the model cannot agree with a runaway loop anyway
+                keep = max(0, int(case["cfg"][1]) if case["cfg"][0] == "qr" else 0) + 2
+                rec["qr_in"], rec["qr_out"] = rec["qr_in"][:keep], rec["qr_out"][:keep]
     return {"outcome": out, "eigh_in": rec["eigh_in"], "eigh_out": rec["eigh_out"], "qr_in": rec["qr_in"], "qr_out": rec["qr_out"],
             "argsort": rec["argsort"][0] if len(rec["argsort"]) == 1 else None, "n_argsort": len(rec["argsort"]),
             "oracle_raised": bool(rec["oracle_exc"])}
